@@ -24,7 +24,7 @@ var R = hx.NewRecorder("C08", "cases = attacker catalogue x GMSSL suite x client
 
 func TestMain(m *testing.M) {
 	for _, k := range []string{"sign_cert_wrong_key", "enc_cert_wrong_key", "untrusted", "expired", "future", "wrongname", "enc_expired", "rsa_sign_cert", "rsa_enc_cert", "swapped", "client_wrong_key", "client_untrusted", "client_expired",
-		"ske_omitted", "ske_other_key", "ske_other_randoms", "ske_other_enccert", "ske_garbage", "cv_omitted", "cv_other_key", "cv_replayed", "finished_wrong",
+		"ske_omitted", "ske_other_key", "ske_other_randoms", "ske_other_enccert", "ske_garbage", "cv_omitted", "cv_other_key", "cv_replayed", "cv_chain_confusion", "finished_wrong",
 		"mitm_byte", "mitm_suites", "mitm_ske_replay", "mitm_cke_replay", "mitm_cert_swap", "mitm_cert_attacker", "baseline"} {
 		R.Require("attack:" + k)
 	}
@@ -149,7 +149,7 @@ func TestC08_ScriptedAttackers(t *testing.T) {
 	hx.Check(t, hx.N(300, 4000), func(t *rapid.T) {
 		n++
 		suite := rapid.SampledFrom(suites).Draw(t, "suite")
-		attack := rapid.SampledFrom([]string{"baseline", "ske_omitted", "ske_other_key", "ske_other_randoms", "ske_other_enccert", "ske_garbage", "finished_wrong", "cv_omitted", "cv_other_key", "cv_replayed", "baseline_client"}).Draw(t, "attack")
+		attack := rapid.SampledFrom([]string{"baseline", "ske_omitted", "ske_other_key", "ske_other_randoms", "ske_other_enccert", "ske_garbage", "finished_wrong", "cv_omitted", "cv_other_key", "cv_replayed", "cv_chain_confusion", "baseline_client"}).Draw(t, "attack")
 		skip := gen.OneIn(t, "skipverify", 3)
 		seed := fmt.Sprint("k", n)
 		cl := []string{fmt.Sprintf("suite:%x", suite)}
@@ -218,6 +218,10 @@ func TestC08_ScriptedAttackers(t *testing.T) {
 				co.OmitCertVerify = true
 			case "cv_other_key":
 				co.CVSignD = p.ClientUntrusted.SM2D
+			case "cv_chain_confusion":
+				// the victim's genuine certificate first, then a certificate whose key the attacker owns; proof signed with the latter
+				co.ExtraCerts = [][]byte{p.ClientUntrusted.DER}
+				co.CVSignD = p.ClientUntrusted.SM2D
 			case "cv_replayed":
 				// a CertificateVerify that was valid in some other session: signature over another transcript
 				plan.Out = func(step string, o rgmssl.Out) []rgmssl.Out {
@@ -283,15 +287,15 @@ func oldCertVerify(p *tlsx.PKI) []byte {
 // ---- (b) man in the middle on the handshake
 
 type hsMitm struct {
-	kind     string
-	offset   int    // for "byte": absolute offset in this direction's handshake byte stream
-	val      byte
-	seenHS   int
-	split    wire.RecordSplitter
-	ccs      bool
-	fired    bool
-	replace  map[byte][]byte // handshake type -> replacement message
-	suites   func(ch []byte) []byte
+	kind    string
+	offset  int // for "byte": absolute offset in this direction's handshake byte stream
+	val     byte
+	seenHS  int
+	split   wire.RecordSplitter
+	ccs     bool
+	fired   bool
+	replace map[byte][]byte // handshake type -> replacement message
+	suites  func(ch []byte) []byte
 }
 
 func (m *hsMitm) filter(p []byte) [][]byte {
@@ -331,7 +335,7 @@ func (m *hsMitm) filter(p []byte) [][]byte {
 }
 
 type captured struct {
-	ske, cke []byte
+	ske, cke       []byte
 	c2sLen, s2cLen int
 }
 
